@@ -295,7 +295,7 @@ SaveRet(t, ok) ==
                                           THEN [sv[u] EXCEPT !.dlive = FALSE, !.dsnapm = dirty] ELSE sv[u]]
           ELSE UNCHANGED <<flag, dirty, sv>>
      ELSE IF ok THEN UNCHANGED <<flag, dirty, sv>>
-          ELSE /\ flag' = TRUE /\ dirty' = dirty \cup sv[t].ddirty /\ UNCHANGED sv
+          ELSE /\ flag' = (flag \/ sv[t].ddirty # {}) /\ dirty' = dirty \cup sv[t].ddirty /\ UNCHANGED sv
   /\ EmitS(<<[ev |-> "SaveEnd", t |-> t, ok |-> ok], [ev |-> "SaveRet", t |-> t]>>)
 
 \* ---------------------------------------------------------------------------
